@@ -66,6 +66,8 @@ package types
 // The block/header hash is computed with the header's own version.
 //@ func Header.Hash
 //@   requires[C14] h != nil && h.Version >= 1 && h.Version <= 4
+//@   axiom result == hdrhash(h)
+//@   keeps big
 //@   ensures[C14] @algo (h.Version == 1 ==> argon_mem == old(argon_mem)) && (h.Version == 2 ==> argon_mem == 1) && (h.Version == 3 ==> argon_mem == 16) && (h.Version == 4 ==> argon_mem == 32)
 //@   assigns argon_time, argon_mem, argon_threads, argon_keylen, argon_saltlen, inferred
 //@   nopanic[C14]
